@@ -8,6 +8,7 @@ grammar = broken tie).
 -/
 import NV.Gen.C20
 import NV.C20.Model
+import NV.C20.Drive
 
 namespace NV.C20
 
@@ -302,5 +303,31 @@ theorem tie_bind_shape :
       "error(\"Permission of binding denied by master object.\\n\")",
       s!"if ((old_fp->hdr.type & 15) == {fpFunctional})", "(new_fp->hdr.owner = ob)",
       s!"if ((old_fp->hdr.type & 15) == {fpFunctional})"] := by decide
+
+/-- make_new_name = `World.cloneSeq` (starts at 1 in `World.init`, `cloneSelf` / `virtCore` use it and add 1): one static
+    counter, initialised to 1, the name is `<str>#<counter>`, incremented once per call -/
+theorem tie_make_new_name_shape :
+    makeNewNameShape = ["decl static i = 1", "sprintf(\"%s#%d\", str, i)", "post++ i"] ∧ (World.init ⟨"", none, false, false, false⟩).cloneSeq = 1 := by
+  decide
+
+/-- destruct_object, as far as the master and the simul_efun object are concerned = `doDest`: the simul_efun object is not
+    destructed while a master exists (`Err.simulDest`); a destructed master is replaced by `load_object` of the same name -
+    a load on behalf of the CALLER (the euid test of `doDest`) - and then `set_master` (uid = euid = get_root_uid()) -/
+theorem tie_destruct_vital_shape :
+    destructVitalShape = [
+      "if ((ob == simul_efun_ob) && master_ob)", "error(\"*Cannot destruct simul_efun_object while master_object exists.\")",
+      "if ((ob == master_ob) || (ob == simul_efun_ob))", "decl new_ob = 0", "decl vital_obj_name = 0", "if (ob == master_ob)",
+      "if (ob == simul_efun_ob)", "if (vital_obj_name && !g_proceeding_shutdown)",
+      "if !strip_name(vital_obj_name, new_name, sizeof)",
+      "error(\"*Destruction of vital object rejected due to invalid config setting (\\\"%s\\\").\", vital_obj_name)",
+      "(new_ob = load_object(tmp, 0))", "if !new_ob", "error(\"*Destruct on vital object failed: new copy failed to reload.\")",
+      "if (ob == master_ob)", "set_master(new_ob)", "if (ob == simul_efun_ob)", "set_simul_efun(new_ob)", "if new_ob", "if new_ob"] := by
+  decide
+
+/-- the error texts the model prints (`Err.render`, NV/C20/Drive.lean) are the driver's (harness form: newline dropped,
+    blanks as `_`) -/
+theorem tie_error_texts :
+    errTexts = [Err.render .noEuidLoad, Err.render .noEuidClone, Err.render .exportZero, Err.render .simulDest,
+                Err.render .bindDenied] := by decide
 
 end NV.C20
